@@ -18,7 +18,7 @@ func init() {
 		NotDecided: "the resulting file sets, S3/GCS server behaviour, ordering of concurrent verify workers.",
 		Rules: []rule{
 			{"C16.keep-set", "removal only for parsed ids that miss in the keep set", 4, c16KeepSet},
-			{"C16.format-filter-by-option", "extension filters depend on the Uncompressed option and match its branch", 10, c16FormatFilter},
+			{"C16.format-filter-by-option", "extension filters depend on the Uncompressed option and match its branch", 5, c16FormatFilter},
 			{"C16.tmp-files", "abandoned temp chunk files are removed before the extension filter", 2, c08Prefix},
 			{"C16.listing-errors", "listing/walk errors fail Prune", 4, c16ListingErrors},
 			{"C16.pool-reentrancy", "no nested pool token acquisition", 4, func(c *Ctx) { c.poolReentrancy("SFTPStore", "pool"); c.poolReentrancy("RemoteSSH", "pool") }},
@@ -142,19 +142,28 @@ func extFilters(c *Ctx, f *ssa.Function) []*ssa.If {
 
 func c16FormatFilter(c *Ctx) {
 	comp, uncomp := c.constVal("CompressedChunkExt"), c.constVal("UncompressedChunkExt")
-	for _, f := range c.subjects() {
-		if f.Pkg != c.LibSSA {
+	var scope []*ssa.Function
+	tops := map[*ssa.Function]string{}
+	for _, top := range c.subjects() {
+		if top.Pkg != c.LibSSA || top.Parent() != nil {
 			continue
-		}
-		top := f
-		for top.Parent() != nil {
-			top = top.Parent()
 		}
 		tk := fnKey(top)
 		// only store code: Verify, Prune, idFromName
 		if !(strings.HasSuffix(tk, ".Prune") || strings.HasSuffix(tk, ".Verify") || strings.HasSuffix(tk, ".idFromName")) {
 			continue
 		}
+		for _, g := range fnsDeep(top) {
+			for _, f := range withClosures(g) {
+				if _, dup := tops[f]; !dup {
+					tops[f] = tk
+					scope = append(scope, f)
+				}
+			}
+		}
+	}
+	for _, f := range scope {
+		tk := tops[f]
 		filters := extFilters(c, f)
 		if len(filters) == 0 {
 			continue
@@ -166,30 +175,11 @@ func c16FormatFilter(c *Ctx) {
 		for i, iff := range filters {
 			key := fmt.Sprintf("%s:ext-filter%d", fnKey(f), i+1)
 			call := stripNot(iff.Cond).(*ssa.Call)
-			if phi, isPhi := call.Call.Args[1].(*ssa.Phi); isPhi {
-				// data-dependent form: ext := <compressed>; if Uncompressed { ext = <uncompressed> }
-				unc, cmpE := optionEdges(f)
-				okPhi := len(unc) > 0
-				for k, e := range phi.Edges {
-					kc, isK := e.(*ssa.Const)
-					if !isK || kc.Value == nil {
-						okPhi = false
-						continue
-					}
-					in := edge{phi.Block().Preds[k], phi.Block()}
-					side := cmpE
-					if kc.Value.ExactString() == uncomp {
-						side = unc
-					}
-					if side[in] {
-						continue
-					}
-					// the predecessor must be reachable only through that side
-					if reachable(f, side)[in.from] {
-						okPhi = false
-					}
-				}
-				c.verdict(okPhi, key, call.Pos(), "the tested extension is selected by the Uncompressed option (variable form)", "the extension tested by the filter is not selected by the store's Uncompressed option")
+			if _, isConst := call.Call.Args[1].(*ssa.Const); !isConst {
+				// variable form: ext := <compressed>; if Uncompressed { ext = <uncompressed> } - as a phi, as
+				// a captured variable assigned before a walk, or as the parameter of a helper
+				okSel, why := extSelectedByOption(call.Call.Args[1], comp, uncomp)
+				c.verdict(okSel, key, call.Pos(), "the tested extension is selected by the Uncompressed option (variable form)", "the extension tested by the filter is not selected by the store's Uncompressed option: "+why)
 				continue
 			}
 			ext := call.Call.Args[1].(*ssa.Const).Value.ExactString()
@@ -444,7 +434,11 @@ func c16Verify(c *Ctx) {
 		}
 		n++
 		okG, _ := guarded(walker, snd, nilEdgeOf(func(o string) bool { return o == "call:desync.ChunkIDFromString#1" }))
-		okV := onlyOrigins(snd.X, func(o string) bool { return o == "call:desync.ChunkIDFromString#0" })
+		// through a (new) parsing helper the failure paths contribute a zero ChunkID, which the guard excludes
+		okV := hasOrigin(snd.X, func(o string) bool { return o == "call:desync.ChunkIDFromString#0" }) &&
+			onlyOrigins(snd.X, func(o string) bool {
+				return o == "call:desync.ChunkIDFromString#0" || strings.HasPrefix(o, "alloc:") || strings.HasPrefix(o, "const:")
+			})
 		c.verdict(okG && okV, "LocalStore.Verify.walk:feeds-parsed-ids", snd.Pos(), "only names that parse as chunk ids are verified", "the walk feeds something that is not a successfully parsed chunk id")
 	})
 	if n == 0 {
@@ -538,4 +532,123 @@ func c16WalkComplete(c *Ctx) {
 	if n < 2 {
 		c.bad("walk-complete", token.NoPos, "expected the walks of Verify and Prune")
 	}
+}
+
+// extSelectedByOption: every definition point of the extension value v assigns the uncompressed
+// extension only behind the Uncompressed==true side of an option test and the compressed one only
+// behind the false side (or as the initial default that the true side overwrites).
+func extSelectedByOption(v ssa.Value, comp, uncomp string) (bool, string) {
+	type defPoint struct {
+		val string
+		fn  *ssa.Function
+		blk *ssa.BasicBlock // block that must lie behind the option side
+		in  *edge           // phi: the incoming edge
+	}
+	var defs []defPoint
+	seen := map[ssa.Value]bool{}
+	okShape := true
+	var walk func(v ssa.Value, d int)
+	walk = func(v ssa.Value, d int) {
+		if v == nil || seen[v] || d > 8 {
+			return
+		}
+		seen[v] = true
+		switch x := v.(type) {
+		case *ssa.Const:
+			okShape = false // a bare constant without a definition point is handled by the caller
+		case *ssa.Phi:
+			for k, e := range x.Edges {
+				if kc, ok := e.(*ssa.Const); ok && kc.Value != nil {
+					in := edge{x.Block().Preds[k], x.Block()}
+					defs = append(defs, defPoint{kc.Value.ExactString(), x.Parent(), in.from, &in})
+				} else {
+					walk(e, d+1)
+				}
+			}
+		case *ssa.UnOp:
+			if x.Op != token.MUL {
+				okShape = false
+				return
+			}
+			var cell *ssa.Alloc
+			switch a := x.X.(type) {
+			case *ssa.Alloc:
+				cell = a
+			case *ssa.FreeVar:
+				if cs := captured(a); len(cs) == 1 {
+					cell, _ = cs[0].(*ssa.Alloc)
+				}
+			}
+			if cell == nil {
+				okShape = false
+				return
+			}
+			for _, st := range storesTo(cell) {
+				if kc, ok := st.Val.(*ssa.Const); ok && kc.Value != nil {
+					defs = append(defs, defPoint{kc.Value.ExactString(), st.Parent(), st.Block(), nil})
+				} else {
+					walk(st.Val, d+1)
+				}
+			}
+		case *ssa.Parameter:
+			as := boundArgs(x)
+			if len(as) == 0 {
+				okShape = false
+			}
+			for _, a := range as {
+				if kc, ok := a.(*ssa.Const); ok && kc.Value != nil {
+					okShape = false // a constant argument: the call site decides, not handled here
+					_ = kc
+				} else {
+					walk(a, d+1)
+				}
+			}
+		default:
+			okShape = false
+		}
+	}
+	walk(v, 0)
+	if !okShape || len(defs) == 0 {
+		return false, "the value is not built from the two extension constants under an option test"
+	}
+	sawU, sawC := false, false
+	for _, d := range defs {
+		unc, cmpE := optionEdges(d.fn)
+		if len(unc) == 0 {
+			return false, "no test of the Uncompressed option where the extension is chosen"
+		}
+		behind := func(side map[edge]bool) bool {
+			if d.in != nil && side[*d.in] {
+				return true
+			}
+			return !reachable(d.fn, side)[d.blk]
+		}
+		switch d.val {
+		case uncomp:
+			sawU = true
+			if !behind(unc) {
+				return false, "the uncompressed extension is chosen without the option being set"
+			}
+		case comp:
+			sawC = true
+			if !behind(cmpE) {
+				// the initial default: its block dominates every option test of the function
+				dom := true
+				for e := range unc {
+					if !(d.blk == e.from || d.blk.Dominates(e.from)) {
+						dom = false
+					}
+				}
+				if !dom {
+					return false, "the compressed extension is chosen although the option is set"
+				}
+			}
+		default:
+			return false, "an extension other than the two chunk extensions: " + d.val
+		}
+	}
+	if !sawU || !sawC {
+		return false, "only one of the two extensions can be chosen"
+	}
+	return true, ""
 }
